@@ -75,6 +75,147 @@ def _fn(cls, name, rel):
     return f
 
 
+# ---- normalisation: obviously equivalent rewrites are mapped to one form before the recognisers run ------------------
+# parameter orders of the callees whose keyword arguments are turned into positional ones
+SIGNATURES = {"add_value": ["key", "value", "storage", "max_age"], "check_token": ["node", "token"],
+              "generate_token": ["node"], "get_storage": ["node"], "get_requesting_node": ["peer"],
+              "unpack_serializable": ["serializable", "data", "offset"],
+              "is_valid_signature": ["ec_key", "data", "signature"], "key_from_public_bin": ["string"],
+              "get_signature_length": ["ec_key"], "ez_send": None, "put": ["key", "data", "id_", "max_age", "version"]}
+FLIP = {ast.Gt: ast.Lt, ast.GtE: ast.LtE, ast.Lt: ast.Gt, ast.LtE: ast.GtE, ast.Eq: ast.Eq, ast.NotEq: ast.NotEq}
+NEG = {ast.Gt: ast.LtE, ast.GtE: ast.Lt, ast.Lt: ast.GtE, ast.LtE: ast.Gt, ast.Eq: ast.NotEq, ast.NotEq: ast.Eq}
+
+
+class _Norm(ast.NodeTransformer):
+    """drop docstrings / logging / annotations; keyword -> positional for known callees; `not (a < b)` -> `a >= b`;
+    constants on the left of a comparison moved to the right; optional renaming of local names"""
+
+    def __init__(self, rename=None):
+        self.rename = rename or {}
+
+    def _stmts(self, node):
+        for field in ("body", "orelse", "finalbody"):
+            b = getattr(node, field, None)
+            if isinstance(b, list) and b and isinstance(b[0], ast.stmt):
+                nb = [x for i, x in enumerate(b)
+                      if not _is_log(x) and not (isinstance(x, ast.Expr) and isinstance(x.value, ast.Constant)
+                                                 and isinstance(x.value.value, str))]
+                setattr(node, field, nb or ([ast.Pass()] if field == "body" else []))
+
+    def generic_visit(self, node):
+        super().generic_visit(node)
+        self._stmts(node)
+        return node
+
+    def visit_Name(self, n):
+        n.id = self.rename.get(n.id, n.id)
+        return n
+
+    def visit_arg(self, a):
+        a.arg = self.rename.get(a.arg, a.arg)
+        a.annotation = None
+        return a
+
+    def visit_AnnAssign(self, n):
+        self.generic_visit(n)
+        return ast.Assign(targets=[n.target], value=n.value) if n.value is not None else n
+
+    def visit_Call(self, c):
+        self.generic_visit(c)
+        name = c.func.attr if isinstance(c.func, ast.Attribute) else c.func.id if isinstance(c.func, ast.Name) else None
+        sig = SIGNATURES.get(name)
+        if sig and c.keywords and all(k.arg for k in c.keywords):
+            kw = {k.arg: k.value for k in c.keywords}
+            args = list(c.args)
+            for pname in sig[len(args):]:
+                if pname in kw:
+                    args.append(kw.pop(pname))
+                else:
+                    break
+            if not kw:
+                c.args, c.keywords = args, []
+        return c
+
+    def visit_UnaryOp(self, u):
+        self.generic_visit(u)
+        if isinstance(u.op, ast.Not) and isinstance(u.operand, ast.Compare) and len(u.operand.ops) == 1 \
+                and type(u.operand.ops[0]) in NEG:
+            return ast.Compare(left=u.operand.left, ops=[NEG[type(u.operand.ops[0])]()],
+                               comparators=u.operand.comparators)
+        return u
+
+    def visit_Compare(self, c):
+        self.generic_visit(c)
+        if len(c.ops) == 1 and type(c.ops[0]) in FLIP and isinstance(c.left, (ast.Name, ast.Constant)) \
+                and not isinstance(c.comparators[0], (ast.Name, ast.Constant)) \
+                and (isinstance(c.left, ast.Constant) or c.left.id.isupper()):
+            return ast.Compare(left=c.comparators[0], ops=[FLIP[type(c.ops[0])]()], comparators=[c.left])
+        return c
+
+
+def _normalised(fn, rename=None):
+    import copy
+    out = _Norm(rename).visit(copy.deepcopy(fn))
+    out.returns = None
+    return ast.fix_missing_locations(out)
+
+
+def _canon_dump(fn):
+    """structure of a function with every locally bound name replaced by its order of first occurrence"""
+    fn = _normalised(fn)
+    bound = set()
+    for n in ast.walk(fn):
+        if isinstance(n, ast.Name) and isinstance(n.ctx, ast.Store):
+            bound.add(n.id)
+        if isinstance(n, ast.arg) and n.arg != "self":
+            bound.add(n.arg)
+    mapping = {}
+
+    class R(ast.NodeTransformer):
+        def visit_Name(self, n):
+            if n.id in bound:
+                n.id = mapping.setdefault(n.id, f"v{len(mapping)}")
+            return n
+
+        def visit_arg(self, a):
+            if a.arg in bound:
+                a.arg = mapping.setdefault(a.arg, f"v{len(mapping)}")
+            return a
+    fn = R().visit(fn)
+    fn.decorator_list = []
+    return ast.dump(fn)
+
+
+def _same_up_to_renaming(fn, ref_src: str) -> bool:
+    import textwrap
+    ref = ast.parse(textwrap.dedent(ref_src)).body[0]
+    return _canon_dump(fn) == _canon_dump(ref)
+
+
+def _role_rename(fn, roles):
+    """rename the positional parameters after `self` (and, with '=first', the target of the first assignment) to the
+    names the recognisers use"""
+    rename = {}
+    params = [a.arg for a in fn.args.args][1:]
+    for have, want in zip(params, [r for r in roles if not r.startswith("=")]):
+        if have != want:
+            rename[have] = want
+    first = [r[1:] for r in roles if r.startswith("=")]
+    if first:
+        for st in fn.body:
+            if isinstance(st, ast.Assign) and len(st.targets) == 1 and isinstance(st.targets[0], ast.Name):
+                if st.targets[0].id != first[0]:
+                    rename[st.targets[0].id] = first[0]
+                break
+    # a renamed local must not capture an existing different name
+    used = {n.id for n in ast.walk(fn) if isinstance(n, ast.Name)} | set(params)
+    for have, want in list(rename.items()):
+        if want in used and want not in rename:
+            # e.g. first var `requester`, loop var `node`: both become `node`, which is what today's code does as well
+            pass
+    return _normalised(fn, rename)
+
+
 def _body(fn):
     """statements without docstring and without bare logging calls"""
     out = []
@@ -118,8 +259,7 @@ def _guard(test, consts, node_var):
         return ".notBlocked"
     if t == f"notself.check_token({node_var},payload.token)":
         return ".token"
-    if t in ("payload.target!=peer.mid", "peer.mid!=payload.target", "notpayload.target==peer.mid",
-             "not(payload.target==peer.mid)"):
+    if t in ("payload.target!=peer.mid", "peer.mid!=payload.target"):
         return ".ownMid"
     # any(len(value) > MAX_ENTRY_SIZE for value in payload.values)
     if isinstance(test, ast.Call) and isinstance(test.func, ast.Name) and test.func.id == "any" and len(test.args) == 1 \
@@ -158,7 +298,7 @@ def _int_expr(e, consts, var):
 
 
 def _store_request(cls, consts):
-    fn = _fn(cls, "on_store_request", COMMUNITY)
+    fn = _role_rename(_fn(cls, "on_store_request", COMMUNITY), ["peer", "payload", "=node"])
     body = _body(fn)
     if not body or _u(body[0]) != "node=self.get_requesting_node(peer)":
         raise TranslatorError("on_store_request does not start with node = self.get_requesting_node(peer)")
@@ -197,7 +337,7 @@ def _store_request(cls, consts):
 
 
 def _store_peer_request(cls):
-    fn = _fn(cls, "on_store_peer_request", DISCOVERY)
+    fn = _role_rename(_fn(cls, "on_store_peer_request", DISCOVERY), ["peer", "payload", "=node"])
     body = _body(fn)
     if not body or _u(body[0]) != "node=Node(peer.key,peer.address)":
         raise TranslatorError("on_store_peer_request does not start with node = Node(peer.key, peer.address)")
@@ -220,21 +360,80 @@ def _store_peer_request(cls):
     return guards
 
 
-def _tokens(cls):
-    gen = _body(_fn(cls, "generate_token", COMMUNITY))
-    chk = _body(_fn(cls, "check_token", COMMUNITY))
-    if len(gen) != 1 or _u(gen[0]) != "returnhashlib.sha1(str(node).encode()+self.token_secrets[-1]).digest()":
-        raise TranslatorError("generate_token is not sha1(str(node) + newest secret)")
-    if len(chk) != 1:
-        raise TranslatorError("check_token: unexpected body")
-    c = _u(chk[0])
-    all_live = "returnany((hashlib.sha1(str(node).encode()+secret).digest()==tokenforsecretinself.token_secrets))"
-    newest = "returnhashlib.sha1(str(node).encode()+self.token_secrets[-1]).digest()==token"
-    if c == all_live:
+REF_GENERATE = """
+def generate_token(self, node):
+    return hashlib.sha1(str(node).encode() + self.token_secrets[-1]).digest()
+"""
+REF_CHECK_ALL = """
+def check_token(self, node, token):
+    return any(hashlib.sha1(str(node).encode() + secret).digest() == token for secret in self.token_secrets)
+"""
+REF_CHECK_NEWEST = """
+def check_token(self, node, token):
+    return hashlib.sha1(str(node).encode() + self.token_secrets[-1]).digest() == token
+"""
+NOTES = {}
+
+
+def _probe_tokens():
+    """Fallback when generate_token / check_token are not textually one of the reference forms: decide by behaviour on a
+    decisive battery against sha1(str(node) + secret) computed here.  Anything but an exact match is an error."""
+    import hashlib
+    import importlib
+    import types
+    from collections import deque
+    mod = importlib.import_module("ipv8.dht.community")
+    s0, s1, s2 = b"A" * 16, b"B" * 16, b"C" * 16
+
+    class N:
+        def __init__(self, t):
+            self.t = t
+
+        def __str__(self):
+            return self.t
+
+    def h(n, sec):
+        return hashlib.sha1(str(n).encode() + sec).digest()
+    node, other = N("Peer<1.2.3.4:5, bWlkMQ==>"), N("Peer<1.2.3.4:6, bWlkMQ==>")
+    other2 = N("Peer<1.2.3.4:5, bWlkMg==>")
+    fake = types.SimpleNamespace(token_secrets=deque([s1, s2], maxlen=2))
+    try:
+        if mod.DHTCommunity.generate_token(fake, node) != h(node, s2):
+            raise TranslatorError("generate_token (probed) is not sha1(str(node) + newest secret)")
+        chk = lambda n, t: bool(mod.DHTCommunity.check_token(fake, n, t))  # noqa: E731
+        acc_new, acc_old = chk(node, h(node, s2)), chk(node, h(node, s1))
+        bad = [h(node, s0), h(other, s2), h(other, s1), h(other2, s2), h(node, s2)[:19] + b"\x00", b"",
+               h(node, s2)[:19], bytes([h(node, s2)[0] ^ 1]) + h(node, s2)[1:], h(node, s1)[:19] + bytes([h(node, s1)[19] ^ 0x80]),
+               h(node, s2) + b"\x00", h(node, s1 + s2), s2, s1]
+        if any(chk(node, t) for t in bad):
+            raise TranslatorError("check_token (probed) accepts a token that is not sha1(str(node) + live secret)")
+        fake.token_secrets = deque([s2], maxlen=2)
+        if chk(node, h(node, s1)) or not chk(node, h(node, s2)):
+            raise TranslatorError("check_token (probed) does not follow token_secrets")
+    except TranslatorError:
+        raise
+    except Exception as e:
+        raise TranslatorError(f"token functions could not be probed ({type(e).__name__}: {e}): they use more than "
+                              f"str(node) and self.token_secrets") from e
+    if acc_new and acc_old:
         return ".allLive"
-    if c == newest:
+    if acc_new and not acc_old:
         return ".newest"
-    raise TranslatorError(f"check_token: unrecognised body {ast.unparse(chk[0])[:160]}")
+    raise TranslatorError("check_token (probed) rejects the token generate_token just produced")
+
+
+def _tokens(cls):
+    gen = _fn(cls, "generate_token", COMMUNITY)
+    chk = _fn(cls, "check_token", COMMUNITY)
+    if _same_up_to_renaming(gen, REF_GENERATE):
+        if _same_up_to_renaming(chk, REF_CHECK_ALL):
+            NOTES["tokens"] = "ast"
+            return ".allLive"
+        if _same_up_to_renaming(chk, REF_CHECK_NEWEST):
+            NOTES["tokens"] = "ast"
+            return ".newest"
+    NOTES["tokens"] = "probe"
+    return _probe_tokens()
 
 
 def _init(cls):
@@ -269,55 +468,120 @@ def _init(cls):
     tm = _body(_fn(cls, "token_maintenance", COMMUNITY))
     if not tm or _u(tm[0]) != "self.token_secrets.append(os.urandom(16))":
         raise TranslatorError("token_maintenance does not start by appending os.urandom(16) to token_secrets")
-    vm = _body(_fn(cls, "value_maintenance", COMMUNITY))
-    if len(vm) != 1 or _u(vm[0]) != "forstorageinself.storages.values():;storage.clean()":
+    if not any(_same_up_to_renaming(_fn(cls, "value_maintenance", COMMUNITY), r) for r in (
+            "def value_maintenance(self):\n    for storage in self.storages.values():\n        storage.clean()",
+            "def value_maintenance(self):\n    for address_cls, storage in self.storages.items():\n        storage.clean()",
+            "def value_maintenance(self):\n    for address_cls in self.storages:\n        self.storages[address_cls].clean()")):
         raise TranslatorError("value_maintenance is not `for storage in self.storages.values(): storage.clean()`")
     return maxlen, intervals
 
 
+REF_UNSERIALIZE = """
+def unserialize_value(self, value):
+    if value[0] == DHT_ENTRY_STR:
+        strpayload, _ = self.serializer.unpack_serializable(StrPayload, value, offset=1)
+        return strpayload.data, None, 0
+
+    if value[0] == DHT_ENTRY_STR_SIGNED:
+        payload, _ = self.serializer.unpack_serializable(SignedStrPayload, value, offset=1)
+        public_key = self.crypto.key_from_public_bin(payload.public_key)
+        sig_len = self.crypto.get_signature_length(public_key)
+        sig = value[-sig_len:]
+        if self.crypto.is_valid_signature(public_key, value[:-sig_len], sig):
+            return payload.data, payload.public_key, payload.version
+
+    return None
+"""
+# the same with the signature slice inlined
+REF_UNSERIALIZE_INLINE = REF_UNSERIALIZE.replace("        sig = value[-sig_len:]\n", "").replace(
+    "value[:-sig_len], sig)", "value[:-sig_len], value[-sig_len:])")
+
+
 def _unserialize(cls):
+    """up to renaming of locals, keyword/positional arguments, comments and logging"""
     fn = _fn(cls, "unserialize_value", COMMUNITY)
-    body = _body(fn)
-    src = [_u(s) for s in body]
-    if len(body) != 3 or not isinstance(body[0], ast.If) or not isinstance(body[1], ast.If) or src[2] != "returnNone":
-        raise TranslatorError("unserialize_value: expected two `if value[0] == KIND` blocks and `return None`")
-    if _u(body[0].test) != "value[0]==DHT_ENTRY_STR" or _u(body[1].test) != "value[0]==DHT_ENTRY_STR_SIGNED":
-        raise TranslatorError("unserialize_value: entry kind tests changed")
-    b0 = [_u(s) for s in body[0].body]
-    if b0 != ["strpayload,_=self.serializer.unpack_serializable(StrPayload,value,offset=1)",
-              "return(strpayload.data,None,0)"]:
-        raise TranslatorError("unserialize_value: unsigned branch changed")
-    b1 = [_u(s) for s in body[1].body]
-    want = ["payload,_=self.serializer.unpack_serializable(SignedStrPayload,value,offset=1)",
-            "public_key=self.crypto.key_from_public_bin(payload.public_key)",
-            "sig_len=self.crypto.get_signature_length(public_key)",
-            "sig=value[-sig_len:]",
-            "ifself.crypto.is_valid_signature(public_key,value[:-sig_len],sig):;"
-            "return(payload.data,payload.public_key,payload.version)"]
-    if b1 != want or body[1].body[4].orelse:
-        raise TranslatorError("unserialize_value: signed branch is not `return (data, public_key, version) only if "
-                              "is_valid_signature(public_key, value[:-sig_len], value[-sig_len:])`")
+    if not (_same_up_to_renaming(fn, REF_UNSERIALIZE) or _same_up_to_renaming(fn, REF_UNSERIALIZE_INLINE)):
+        raise TranslatorError("unserialize_value is not the recognised shape: plain branch returns (data, None, 0); signed "
+                              "branch returns (data, public_key, version) only if is_valid_signature(public_key, "
+                              "value[:-sig_len], value[-sig_len:])")
     return True
+
+
+REF_POST_PROCESS = """
+def post_process_values(self, values):
+    unpacked = defaultdict(list)
+    for value in values:
+        unserialized = self.unserialize_value(value)
+        if unserialized:
+            data, public_key, version = unserialized
+            unpacked[public_key].append((version, data))
+
+    results = []
+
+    for public_key, data_list in unpacked.items():
+        if public_key is not None:
+            results.append((PICK(data_list, key=lambda t: t[0])[1], public_key))
+
+    return [*results, *((data[1], None) for data in unpacked[None])]
+"""
 
 
 def _post_process(cls):
     fn = _fn(cls, "post_process_values", COMMUNITY)
-    picks = []
-    for n in ast.walk(fn):
-        if isinstance(n, ast.Call) and isinstance(n.func, ast.Name) and n.func.id in ("max", "min") \
-                and n.args and _u(n.args[0]) == "data_list":
-            kw = {k.arg: k.value for k in n.keywords}
-            if set(kw) != {"key"} or _u(kw["key"]) != "lambdat:t[0]":
-                raise TranslatorError("post_process_values: the per-signer pick is not keyed on the version (t[0])")
-            picks.append(n.func.id)
-    src = _u(fn)
-    if len(picks) != 1:
-        raise TranslatorError("post_process_values: expected exactly one max/min over data_list")
-    if "unpacked[public_key].append((version,data))" not in src or "ifunserialized:" not in src:
-        raise TranslatorError("post_process_values: grouping by public key of successfully unserialized values changed")
-    if "results.append((" + picks[0] + "(data_list,key=lambdat:t[0])[1],public_key))" not in src:
-        raise TranslatorError("post_process_values: signed result is not (picked data, public_key)")
-    return ".maxVersion" if picks[0] == "max" else ".minVersion"
+    for pick in ("max", "min"):
+        if _same_up_to_renaming(fn, REF_POST_PROCESS.replace("PICK", pick)):
+            return ".maxVersion" if pick == "max" else ".minVersion"
+    raise TranslatorError("post_process_values is not the recognised shape (group verified values by public key, one "
+                          "max/min by version per key, then the unsigned values)")
+
+
+def _probe_clean():
+    """Fallback for an unrecognised Storage.clean: run it on every expired/fresh pattern up to length 5 (two keys at once)
+    and accept only if it is exactly the filter or exactly the tail scan."""
+    import importlib
+    import itertools
+    mod = importlib.import_module("ipv8.dht.storage")
+    real = mod.time.time
+    mod.time.time = lambda: 1000.0
+    try:
+        verdicts = set()
+        for n in range(0, 6):
+            for pat in itertools.product([True, False], repeat=n):
+                st = mod.Storage()
+                vals = []
+                for i, expired in enumerate(pat):
+                    v = mod.Value(b"id%d" % i, b"d%d" % i, 10 if expired else 5000, 0)
+                    v.last_update = 900.0
+                    vals.append(v)
+                st.items[b"k1"] = list(vals)
+                st.items[b"k2"] = list(reversed(vals))
+                st.clean()
+                got = ([v.data for v in st.items[b"k1"]], [v.data for v in st.items[b"k2"]])
+
+                def filt(l):
+                    return [v.data for v in l if not (1000.0 - v.last_update > v.max_age)]
+
+                def tail(l):
+                    l = list(l)
+                    while l and (1000.0 - l[-1].last_update > l[-1].max_age):
+                        l.pop()
+                    return [v.data for v in l]
+                rv = list(reversed(vals))
+                if got == (filt(vals), filt(rv)):
+                    verdicts.add("false") if got != (tail(vals), tail(rv)) else None
+                elif got == (tail(vals), tail(rv)):
+                    verdicts.add("true")
+                else:
+                    raise TranslatorError(f"Storage.clean (probed) is neither the filter nor the tail scan on pattern {pat}")
+        if len(verdicts) != 1:
+            raise TranslatorError("Storage.clean (probed) is inconsistent between patterns")
+        return verdicts.pop()
+    except TranslatorError:
+        raise
+    except Exception as e:
+        raise TranslatorError(f"Storage.clean could not be probed: {type(e).__name__}: {e}") from e
+    finally:
+        mod.time.time = real
 
 
 def _storage():
@@ -342,6 +606,12 @@ def _storage():
     t = cmps[0].test
     le, ri = _u(t.left), _u(t.comparators[0])
     op = CMP[type(t.ops[0])]
+    newv = next((_u(x.targets[0]) for x in ast.walk(put) if isinstance(x, ast.Assign) and isinstance(x.value, ast.Call)
+                 and _u(x.value.func) == "Value"), "new_value")
+    oldv = next((_u(x.targets[0]) for x in ast.walk(put) if isinstance(x, ast.Assign)
+                 and isinstance(x.value, ast.Subscript) and _u(x.value).startswith("self.items[")), "old_value")
+    le, ri = le.replace(newv + ".", "new_value.").replace(oldv + ".", "old_value."), \
+        ri.replace(newv + ".", "new_value.").replace(oldv + ".", "old_value.")
     if (le, ri) == ("new_value.version", "old_value.version"):
         put_cmp = op
     elif (le, ri) == ("old_value.version", "new_value.version"):
@@ -350,16 +620,21 @@ def _storage():
         raise TranslatorError("Storage.put: version comparison is not between new_value and old_value")
     if cmps[0].orelse:
         raise TranslatorError("Storage.put: version comparison has an else branch")
-    # clean: reverse scan, pop expired, optional break
-    clean = _body(_fn(sto, "clean", STORAGE))
-    head = "forkeyinself.items:;forindex,valueinreversed(list(enumerate(self.items[key]))):;ifvalue.expired:;self.items[key].pop(index)"
-    flat = _u(clean[0]) if len(clean) == 1 else ""
-    if flat == head:
-        stops = "false"
-    elif flat == head + ";else:;break":
-        stops = "true"
+    # clean: reverse scan popping expired values (with or without the early break), or an equivalent filter
+    cfn = _fn(sto, "clean", STORAGE)
+    ref_scan = ("def clean(self):\n    for key in self.items:\n        for index, value in reversed(list(enumerate(self.items[key]))):\n"
+                "            if value.expired:\n                self.items[key].pop(index)\n")
+    ref_filters = [
+        "def clean(self):\n    for key in self.items:\n        self.items[key] = [value for value in self.items[key] if not value.expired]\n",
+        "def clean(self):\n    for key in self.items:\n        self.items[key][:] = [value for value in self.items[key] if not value.expired]\n",
+        "def clean(self):\n    for key, values in self.items.items():\n        values[:] = [value for value in values if not value.expired]\n",
+    ]
+    if _same_up_to_renaming(cfn, ref_scan) or any(_same_up_to_renaming(cfn, r) for r in ref_filters):
+        stops, NOTES["clean"] = "false", "ast"
+    elif _same_up_to_renaming(cfn, ref_scan + "            else:\n                break\n"):
+        stops, NOTES["clean"] = "true", "ast"
     else:
-        raise TranslatorError("Storage.clean: not the recognised reverse scan popping expired values")
+        stops, NOTES["clean"] = _probe_clean(), "probe"
     return expired_cmp, put_cmp, stops
 
 
@@ -405,7 +680,7 @@ def translate() -> tuple[str, dict]:
           "", "end Ipv8.C15.Gen", ""]
     info = {"consts": consts, "guards": guards, "peer_guards": peer_guards, "scope": scope, "pick": pick,
             "put_cmp": put_cmp, "expired_cmp": expired_cmp, "clean_stops": stops, "max_age": max_age,
-            "maxlen": maxlen, "intervals": intervals}
+            "maxlen": maxlen, "intervals": intervals, "recognised_by": dict(NOTES)}
     return "\n".join(L), info
 
 
